@@ -35,6 +35,11 @@ def case_st(draw, shapes):
     sc = draw(scen.scenario_st(shapes, measure="none", allow_order_key=True,
                                weight_kinds=("none", "zeroheavy", "zeroheavy", "dyadic")))
     sv, q = sc["survey"], sc["query"]
+    # derived (zz9-computed) MR items: they must obey hide / prune like any other item
+    from props.c07 import _add_derived
+    for var in sv["vars"].values():
+        if var["type"] == "mr" and draw(st.booleans()):
+            _add_derived(draw, var)
     is_na = bool(q.get("measure"))
     dims = q["dims"][-2:]
     names = ["rows_dimension", "columns_dimension"]
@@ -55,6 +60,8 @@ def case_st(draw, shapes):
             t["insertions"] = draw(xforms.insertions_st(v, m, max_ins=3))
             inforce = t["insertions"]
         refs = xforms.element_refs(var, part)
+        if draw(st.integers(0, 2)) == 0:
+            t["order"] = {"type": "explicit", "element_ids": draw(xforms.explicit_ids_st(refs))}
         elements, prune = draw(xforms.hide_prune_st(refs, p_hide=2, p_prune=1))
         if elements:
             t["elements"] = elements
